@@ -435,10 +435,12 @@ func (g *VCGen) dynamicCall(c *ssa.CallCommon, pos token.Pos, v *ssa.Call) []Spe
 	if key := dynCallKey(c.Value); key != "" {
 		pkg := g.pkgOf(g.fn)
 		if fc := g.eng.contracts.Funcs[pkg.Path()+"::dyn:"+key]; fc != nil {
-			g.val(c.Value)
+			self := g.val(c.Value)
 			args := g.argVals(c)
 			sig := c.Signature()
-			var names []string
+			// "self" names the function value itself in a dyn contract
+			names := []string{"self"}
+			args = append([]SpecVal{self}, args...)
 			for i := 0; i < sig.Params().Len(); i++ {
 				n := sig.Params().At(i).Name()
 				if n == "" || n == "_" {
